@@ -55,6 +55,11 @@ CHECKS.update({
             "DESIGN.md 4/C20", "Generated custom-auth inputs and user options; the builder's output is read through the verif accessor.", "accessor calls the builder's own private functions"),
 })
 
+CHECKS.update({
+    "C13": ("exploration", "runtime monitoring: the real tokio and threaded clients (public API) and the websocket stream wrapper on scripted in-memory transports; byte-stream equality via the reference decoder, one-result-per-operation at provable loop exit",
+            "DESIGN.md 4/C13", "Real drivers under partial writes, would-block, read fragmentation, EOF/errors, refused connections and stop/close races; the websocket wrapper under arbitrary frame sizes and arrival patterns.", "wall clock only as watchdog; 'never resolves' is judged once a probe submit proves the event loop is gone"),
+})
+
 PENDING = {
     "C12": "check under construction in this session (client-impl simulator + real drivers)",
     "C13": "check under construction in this session (real drivers on scripted transports)",
